@@ -119,6 +119,10 @@ class ScipyOptimizeDriver(Driver):
         Pre-calculated gradients of linear constraints.
     _desvar_array_cache : np.ndarray
         Cached array for setting design variables.
+    _last_x : np.ndarray or None
+        Design point (optimizer-scaled) at which the model was evaluated last.
+    _grad_x : np.ndarray or None
+        Design point (optimizer-scaled) that the cached total derivatives belong to.
     """
 
     def __init__(self, **kwargs):
